@@ -2580,6 +2580,8 @@ class VirtualArrayType(ContentType):
         pyptr = ctypes.cast(voidptr, ctypes.py_object)
         ctypes.pythonapi.Py_IncRef(pyptr)
         virtualarray = pyptr.value
+        for key in fields:
+            virtualarray = virtualarray[key]
         return virtualarray
 
     def hasfield(self, key):
